@@ -4,11 +4,12 @@
 (* sinc.rs).  Components:                                                  *)
 (*   sinc       direct use: push / interp{x = j/16} / clear; every interp  *)
 (*              also reports a twin that was created fresh at the last     *)
-(*              clear and fed the same frames since                        *)
+(*              clear and fed the same frames since; interpf{xf} = interp  *)
+(*              at an exactly given binary64 position (next to the grid)   *)
 (*   sinc_conv  the real Converter at ratio 1 over an instrumented source  *)
 (*   sinc_lin   four instances fed a, b, a+b, 2^k a, interpolated at j/16  *)
 (*              after every push (`step`) and, without pushing, at any     *)
-(*              further position (`probe`)                                 *)
+(*              further position (`probe`, `probef` = exact position)      *)
 (*   sinc_clin  four real Converters at one ratio num/den (any ratio) over *)
 (*              the sources a, b, a+b, 2^k a                               *)
 (* Frame formats f64, f32, i8, i16, i32, u8, u16, u32 (mono / stereo); the *)
@@ -23,7 +24,10 @@
 (*   less than one LSB);                                                   *)
 (*   converter: k pulls before the k-th output (k = 0, 1, ...);            *)
 (*   every output finite; after clear = a fresh interpolator, bit for bit; *)
-(*   constant input, buffer primed, depth >= 4: within 1 % (+ 2 depth LSB);*)
+(*   constant input, buffer primed, depth >= 4: within 1 % (+ 2 depth LSB) *)
+(*   at every position of [0, 1) - also through a Converter whose last     *)
+(*   2 depth pulled frames are one frame, at whatever position its ratio   *)
+(*   has accumulated to (sinc_clin);                                       *)
 (*   scaling by 2^k exact for floats (2 depth max(1, 2^k) LSB integers),   *)
 (*   superposition within 4 depth eps peak (2 depth LSB integers) -- at    *)
 (*   every position and whatever the inputs are (runs of exact zeros,      *)
@@ -38,7 +42,8 @@ VARIABLES l, comp, cf, hist, peak, n, skip
 vars == << l, comp, cf, hist, peak, n, skip >>
 Ev == Rec[l]
 
-Cf0 == [depth |-> 1, fmt |-> "f64", ch |-> 1, k |-> 0, src |-> << >>]
+NoClin == [a |-> << >>, b |-> << >>, ab |-> << >>, ka |-> << >>]
+Cf0 == [depth |-> 1, fmt |-> "f64", ch |-> 1, k |-> 0, src |-> << >>, clin |-> NoClin]
 E12 == DMk(FALSE, BMul(BFromNat(1000000), BFromNat(1000000)), 0)
 HeapOK == Ev.h = << 0, 0, 0 >>
 
@@ -108,6 +113,23 @@ AcceptInterp ==
   /\ (Ev.a.x = 0 => GridFrameOK(Ev.r.v.out, GridOr(hist, Depth, ZeroFrame), peak))
   /\ (Depth >= 4 /\ Primed => ConstOK(Ev.r.v.out))
 
+\* `interpf`: a position given exactly (binary64 fields xf, echoed by the driver): the same clauses at EVERY position
+\* of [0, 1), in particular right next to the grid (1 - 2^-k down to the largest double below 1, 2^-k down to the
+\* smallest subnormal), where a kernel evaluated through a mathematically equal but cancelling formula goes wrong
+DOne == DFromInt(1)
+XPos == Dec(F64, Ev.a.xf)
+PosOK == /\ IsFields(Ev.a.xf) /\ FIsFinite(F64, Ev.a.xf) /\ DLe(DZero, XPos) /\ DLt(XPos, DOne)      \* the statement's domain
+PosClaimOK ==  \* (binding) the echoed position is the one the stimulus names
+  CASE Ev.a.kind = "onem" -> Ev.a.k \in 1..53 /\ DEq(XPos, DSub(DOne, DPow2(0 - Ev.a.k)))
+    [] Ev.a.kind = "pow"  -> Ev.a.k \in 0..1074 /\ DEq(XPos, DPow2(0 - Ev.a.k))
+    [] OTHER -> Ev.a.kind = "bits"
+AcceptInterpF ==
+  /\ PosOK /\ PosClaimOK /\ Ev.r.k = "val"
+  /\ FrameOK(Ev.r.v.out) /\ FrameOK(Ev.r.v.fresh)                         \* finite
+  /\ Ev.r.v.out = Ev.r.v.fresh                                            \* reset = fresh, bit for bit
+  /\ (DIsZero(XPos) => GridFrameOK(Ev.r.v.out, GridOr(hist, Depth, ZeroFrame), peak))
+  /\ (Depth >= 4 /\ Primed => ConstOK(Ev.r.v.out))
+
 SrcV == [i \in 1..Len(cf.src) |-> VF(cf.src[i])]
 AcceptConv ==
   /\ Ev.r.k = "val" /\ FrameOK(Ev.r.v)
@@ -150,6 +172,18 @@ AcceptLin ==
 \* `probe{x}`: the four instances interpolated at x = j/16 without being fed: the same relations at every position of
 \* every buffer content (interpolate is a function of the buffered frames and x)
 AcceptProbe == /\ Ev.a.x \in 0..15 /\ Ev.r.k = "val" /\ LinRel(Ev.r.v, peak)
+AcceptProbeF == /\ PosOK /\ Ev.r.k = "val" /\ LinRel(Ev.r.v, peak)
+\* sinc_clin, constant clause: a converter whose last 2 depth pulled source frames are one and the same frame c holds a
+\* primed constant buffer - whatever position its accumulated phase has reached (ratios like 1/10, 7/10, 1/7 reach
+\* positions a few ulp below 1, 11/10 or 1/9 a few ulp above 0, by themselves): its output is c to within 1 %
+\* (frames past the end of the source are equilibrium, as the driver's source yields them)
+ClinSrcAt(src, i) == IF i <= Len(src) THEN VF(src[i]) ELSE ZeroFrame
+ClinConstOK(src, outf, p) ==
+  (Depth >= 4 /\ p >= 2 * Depth /\ \A i \in (p - 2 * Depth + 1)..p : ClinSrcAt(src, i) = ClinSrcAt(src, p)) =>
+     \A c \in 1..cf.ch :
+        LET cv == ClinSrcAt(src, p)[c]
+            d == DAbs(DSub(V(outf[c]), cv))
+        IN DLe(DMul(DFromInt(100), d), DAdd(DAbs(cv), IF Flt THEN DZero ELSE Lsb(200 * Depth)))
 \* sinc_clin `next`: the four converters (same ratio) have pulled the same number of source frames -- the schedule
 \* does not depend on the values -- and their frames are related as above (peak = the peak of the sources)
 AcceptCLin ==
@@ -157,6 +191,8 @@ AcceptCLin ==
   /\ \A i \in 2..4 : Ev.o.pulls[i] = Ev.o.pulls[1]
   /\ Ev.o.pulls[1] >= n                                                  \* (n = pulls so far) never decreases
   /\ LinRel(Ev.r.v, peak)
+  /\ ClinConstOK(cf.clin.a, Ev.r.v.oa, Ev.o.pulls[1]) /\ ClinConstOK(cf.clin.b, Ev.r.v.ob, Ev.o.pulls[1])
+  /\ ClinConstOK(cf.clin.ab, Ev.r.v.oab, Ev.o.pulls[1]) /\ ClinConstOK(cf.clin.ka, Ev.r.v.oka, Ev.o.pulls[1])
 
 ---------------------------------------------------------------------------
 Consume == l <= Len(Rec) /\ l' = l + 1
@@ -170,7 +206,9 @@ TReset ==
        THEN /\ comp' = Ev.comp /\ skip' = FALSE /\ hist' = << >> /\ n' = 0
             /\ cf' = [depth |-> Ev.cfg.depth, fmt |-> Ev.cfg.fmt, ch |-> Ev.cfg.ch,
                       k |-> IF Ev.comp \in {"sinc_lin", "sinc_clin"} THEN Ev.cfg.k ELSE 0,
-                      src |-> IF Ev.comp = "sinc_conv" THEN Ev.cfg.src ELSE << >>]
+                      src |-> IF Ev.comp = "sinc_conv" THEN Ev.cfg.src ELSE << >>,
+                      clin |-> IF Ev.comp = "sinc_clin"
+                                 THEN [a |-> Ev.cfg.a, b |-> Ev.cfg.b, ab |-> Ev.cfg.ab, ka |-> Ev.cfg.ka] ELSE NoClin]
             \* the converter's peak input amplitude is the peak of its source
             /\ peak' = IF Ev.comp = "sinc_conv" THEN SrcPeak(Ev.cfg)
                        ELSE IF Ev.comp = "sinc_clin"
@@ -190,6 +228,14 @@ TClear == /\ comp = "sinc" /\ Ev.ev = "clear"
                ELSE Bad
 TInterp == /\ comp = "sinc" /\ Ev.ev = "interp"
            /\ IF AcceptInterp
+                THEN n' = n + 1 /\ HeapNote /\ UNCHANGED << comp, cf, hist, peak, skip >>
+                ELSE Bad
+TInterpF == /\ comp = "sinc" /\ Ev.ev = "interpf"
+            /\ IF AcceptInterpF
+                 THEN n' = n + 1 /\ HeapNote /\ UNCHANGED << comp, cf, hist, peak, skip >>
+                 ELSE Bad
+TProbeF == /\ comp = "sinc_lin" /\ Ev.ev = "probef"
+           /\ IF AcceptProbeF
                 THEN n' = n + 1 /\ HeapNote /\ UNCHANGED << comp, cf, hist, peak, skip >>
                 ELSE Bad
 TConv == /\ comp = "sinc_conv" /\ Ev.ev = "next"
@@ -214,14 +260,14 @@ TCLin == /\ comp = "sinc_clin" /\ Ev.ev = "next"
          /\ IF AcceptCLin
               THEN n' = Ev.o.pulls[1] /\ HeapNote /\ UNCHANGED << comp, cf, hist, peak, skip >>
               ELSE Bad
-Known == \/ comp = "sinc" /\ Ev.ev \in {"push", "clear", "interp"}
+Known == \/ comp = "sinc" /\ Ev.ev \in {"push", "clear", "interp", "interpf"}
          \/ comp = "sinc_conv" /\ Ev.ev \in {"next", "tail"}
-         \/ comp = "sinc_lin" /\ Ev.ev \in {"step", "probe"}
+         \/ comp = "sinc_lin" /\ Ev.ev \in {"step", "probe", "probef"}
          \/ comp = "sinc_clin" /\ Ev.ev = "next"
 TUnknown == ~Known /\ Bad
 
 TOp == /\ Consume /\ Ev.ev # "reset" /\ ~skip
-       /\ (TPush \/ TClear \/ TInterp \/ TConv \/ TTail \/ TLin \/ TProbe \/ TCLin \/ TUnknown)
+       /\ (TPush \/ TClear \/ TInterp \/ TInterpF \/ TProbeF \/ TConv \/ TTail \/ TLin \/ TProbe \/ TCLin \/ TUnknown)
 TSkip == Consume /\ Ev.ev # "reset" /\ skip /\ UNCHANGED << comp, cf, hist, peak, n, skip >>
 
 TraceInit == l = 1 /\ comp = "none" /\ cf = Cf0 /\ hist = << >> /\ peak = DZero /\ n = 0 /\ skip = TRUE
